@@ -162,7 +162,7 @@ def correspond(ctx, impl, cases, dcases, oracle=True, shard=400):
         stats["rejected" if res["bytes"] is None else "encoded"] = stats.get("rejected" if res["bytes"] is None else "encoded", 0) + 1
         ctx.note_case((fname, v0, v1, app, str(body)), nontrivial=len(body) > 0)
         if oracle and res["oracle_ok"] is False:
-            ctx.violation("decode(encode(s)) != s on the implementation",
+            ctx.violation("decode(encode(s)) != s on the implementation" + (f" ({res['err']})" if res.get("err") else ""),
                           dict(flavour=fname, version=[v0, v1], app_id=app, body=body, got=res["dec"], err=res["err"]),
                           key=None)
         per_flav[fname][0].append(ci.coq_ecase(v0, v1, app, body, res))
